@@ -471,10 +471,29 @@ def raw_is_closed(adapted):
         return True
 
 
+class _Tagged:
+    """ctx proxy that tags every mechanism of a double-cancellation run: a second
+    cancellation delivered while the cleanup triggered by the first one is awaited is a
+    different fault class (double fault) from a single cancellation."""
+
+    def __init__(self, ctx, suffix):
+        self._ctx = ctx
+        self._suffix = suffix
+
+    def __getattr__(self, name):
+        return getattr(self._ctx, name)
+
+    def violation(self, mechanism, summary, witness=None):
+        self._ctx.violation(mechanism + self._suffix, summary, witness)
+
+
 async def post_checks(ctx, sa, eng, ar, path, prog, k, outcome, desc):
     """Everything the program held has been released (its task has finished)."""
     import gc
     import warnings
+
+    if desc.get("second") is not None:
+        ctx = _Tagged(ctx, ":double-cancel")
 
     ctx.count("post_checks")
     pool = eng.sync_engine.pool
@@ -610,6 +629,7 @@ def part_cancel(ctx, sa, orm, aio, rng):
     for i in range(nprog):
         if i >= 1 and not ctx.budget_ok():
             break
+        is_directed = False
         prog = gen_program(rng)
         path = ctx.tmppath(".db")
         from vf.mon.cancel import run_driven
@@ -643,7 +663,11 @@ def part_cancel(ctx, sa, orm, aio, rng):
                 break
             asyncio.run(one(k))
             ctx.case({"prog": prog, "k": k}, nontrivial=has_write and nsusp >= 6)
-            if ctx.thorough and k % 3 == 0:
+            if is_directed:
+                asyncio.run(one(k, k + 1))
+                ctx.count("double_cancel_runs")
+                ctx.case({"prog": prog, "k": k, "k2": k + 1}, nontrivial=True)
+            elif ctx.thorough and k % 3 == 0:
                 k2 = k + rng.randint(1, 4)
                 asyncio.run(one(k, k2))
                 ctx.count("double_cancel_runs")
